@@ -239,9 +239,10 @@ def exits(ctx, write_guarded):
 
 def counter_width(ctx, rule):
     facts = ctx.facts
-    fty = [f for f in facts.struct_fields(srv.CCT) if f["name"] == "in_flight_response_count"]
+    from .util import frozen_field_type
+    fty = frozen_field_type(facts, srv.CCT, "in_flight_response_count")
     bits = {"u8": 8, "u16": 16, "u32": 32, "u64": 64, "usize": 64, "u128": 128}
-    ty = fty[0]["ty"]["s"] if fty else "?"
+    ty = fty["s"] if fty else "?"
     ctx.ob(rule, "counter|width", bits.get(ty, 0) >= 32, "ClientConnection.in_flight_response_count is a %s (an unsigned type of at least 32 bits is needed: 2^32 unanswered requests are out of reach, 256 are not)" % ty)
     fn, lv = leaves(ctx, CC + "read")
     n = 0
